@@ -1,6 +1,7 @@
 package world
 
 import (
+	"strconv"
 	"encoding/base64"
 	"encoding/json"
 	"fmt"
@@ -78,6 +79,10 @@ type Answer struct {
 	Hang    bool    `json:"hang,omitempty"`
 	// Genuine: produce the genuine answer (then apply Patch / IDToken / Status), even with an empty patch.
 	Genuine bool `json:"genuine,omitempty"`
+	// Suffix is appended after the (genuine or patched) body: a second document, stray bytes, a proxy's error page.
+	Suffix string `json:"suffix,omitempty"`
+	// ShortBy > 0: the answer announces ShortBy more bytes than it sends and the connection is then closed.
+	ShortBy int `json:"short_by,omitempty"`
 }
 
 // NewIdP returns an empty IdP model.
@@ -361,7 +366,7 @@ func (p *IdP) backchannel(endpoint string, rw http.ResponseWriter, req *http.Req
 		<-req.Context().Done()
 		return
 	}
-	if a.Patch == nil && a.IDToken == nil && !a.Genuine {
+	if a.Patch == nil && a.IDToken == nil && !a.Genuine && a.Suffix == "" && a.ShortBy == 0 {
 		ct := a.CT
 		if ct == "" {
 			ct = "application/json"
@@ -397,8 +402,15 @@ func (p *IdP) backchannel(endpoint string, rw http.ResponseWriter, req *http.Req
 	if a.Status != 0 {
 		st = a.Status
 	}
+	body := append(c.body, a.Suffix...)
+	if a.ShortBy > 0 {
+		rw.Header().Set("Content-Length", strconv.Itoa(len(body)+a.ShortBy))
+	}
 	rw.WriteHeader(st)
-	rw.Write(c.body)
+	rw.Write(body)
+	if a.ShortBy > 0 {
+		panic(http.ErrAbortHandler) // the connection dies before the announced length was sent
+	}
 }
 
 // authorize is the front-channel login: the user at the keyboard is named by the
